@@ -12,7 +12,7 @@ from fractions import Fraction as F
 import numpy as np
 
 from rv.core import ctx as _ctx
-from rv.core import instrument, scribble
+from rv.core import calling, instrument, scribble
 
 ANCHORS = ("audio/io.py", "audio/operations.py", "audio/spectrograms.py", "arrays/dimensions.py")
 THOROUGH_SHARDS = 10
@@ -164,6 +164,11 @@ def judge_clip(ctx, file_sr, te, channels, n_frames, seed, start, end, history=N
     clip = data.Clip(uuid=uuid.UUID(int=43), recording=rec, start_time=start, end_time=end)
     ctx.mon("load_clip")
     try:
+        if adir is not None and ctx.every(spec, 5):
+            from pathlib import Path as _P
+
+            same = lambda x, y: np.array_equal(np.asarray(x.data), np.asarray(y.data)) and np.array_equal(x.time.data, y.time.data)
+            calling.agree(ctx, "load_clip", instrument.original(AIO.load_clip), dict(clip=clip, audio_dir=adir), spec, same=same, variants={"path_object": {"audio_dir": _P(adir)}})
         wav = AIO.load_clip(clip, audio_dir=adir)
     except Exception as e:
         key = f"load_clip:raises:{type(e).__name__}"
@@ -256,6 +261,10 @@ def judge_resample(ctx, wav, target, spec):
 
     ctx.mon("resample")
     try:
+        if ctx.every(spec, 8):
+            same = lambda x, y: np.array_equal(np.asarray(x.data), np.asarray(y.data)) and np.array_equal(x.time.data, y.time.data)
+            calling.agree(ctx, "resample", instrument.original(AO.resample), dict(array=wav, target_samplerate=target), spec, same=same,
+                          variants={"numlike_rate": {"target_samplerate": calling.numlike(ctx.rng, target)}})
         out = AO.resample(wav, target)
     except Exception as e:
         ctx.violate_exc("resample:raises", f"resample:raises:{type(e).__name__}", e, spec=spec)
@@ -273,6 +282,10 @@ def judge_spectrogram(ctx, wav, window, hop, spec):
 
     ctx.mon("compute_spectrogram")
     try:
+        if ctx.every(spec, 8):
+            same = lambda x, y: list(x.dims) == list(y.dims) and np.array_equal(np.asarray(x.data), np.asarray(y.data), equal_nan=True) and np.array_equal(x.time.data, y.time.data)
+            calling.agree(ctx, "compute_spectrogram", instrument.original(SP.compute_spectrogram), dict(audio=wav, window_size=window, hop_size=hop), spec, same=same,
+                          variants={"numlike_sizes": {"window_size": calling.numlike(ctx.rng, window), "hop_size": calling.numlike(ctx.rng, hop)}})
         sp = SP.compute_spectrogram(wav, window_size=window, hop_size=hop)
     except Exception as e:
         ctx.violate_exc("spectrogram:raises", f"spectrogram:raises:{type(e).__name__}", e, spec=spec)
